@@ -173,7 +173,9 @@ def judge(case, ctx, clean=False):
         if r.timed_out:
             flag(ctx, base, Violation(
                 "no-termination", "conversation still running after %.0f s "
-                "virtual time; deadlock report %r" % (r.vtime, r.deadlock)))
+                "virtual time; busy loop %r; deadlock report %r; initiator "
+                "done %r, target done %r" % (r.vtime, r.budget, r.deadlock,
+                                             r.i_done, r.t_done)))
         # the target is activated by the first DEP_REQ it hears (drivers
         # hand it out from listen); ATR/PSL are never faulted
         heard = any(f["dir"] == "I>T" and f["code"] == "DEP"
@@ -360,7 +362,7 @@ def enum_configs(tier, seed):
         cfg.update(over)
         out.append({"cfg": cfg, "req": [list(x) for x in req],
                     "res": [list(x) for x in res]})
-    total = 40 if tier == "quick" else 400
+    total = 40 if tier == "quick" else 300
     edges = [[0, 1], [1, -1], [1, 0], [1, 1], [2, 0], [2, 1], [3, -1]]
     while len(out) < total:
         cfg = dict(DEFAULT_CFG)
@@ -412,7 +414,7 @@ def enum_cases(tier, seed):
 LEGS = [
     Leg("enum", run=run, enum=enum_cases, exhaustive=True,
         shards_quick=12, shards_thorough=16,
-        rule="8 hand-written + seeded configurations (40 quick / 400 "
+        rule="8 hand-written + seeded configurations (40 quick / 300 "
              "thorough) x {fault-free, every single fault, every pair of "
              "faults (quick: 70 seeded pairs per configuration)} in {lose, "
              "corrupt} over the first min(24, length) frame slots of the "
@@ -420,7 +422,7 @@ LEGS = [
              "an ACK, an ATN/NAK recovery frame, or a step after the PNI "
              "wrap (step index >= 4)."),
     Leg("random", run=run, gen=lambda tier: st_case(), quick=1600,
-        thorough=40000, shards_quick=8, shards_thorough=16, nt_floor=0.3,
+        thorough=30000, shards_quick=8, shards_thorough=16, nt_floor=0.3,
         rule="Hypothesis: brs 0-2 x start 106A/212F/424F x lri/lrt 0-3 x "
              "rwt 0-14 x DID none/1..14 x NAD none/0..255 x general bytes x "
              "1-12 exchanges with sizes k*MIU+{-1,0,1} or <= 1500 x scripts "
